@@ -59,6 +59,10 @@ def get_dimensionality(
         list: A list of clusters. Each entry in the list contains the indices
             of atoms in a cluster.
     """
+    # The periodic extension used for the minimum image distances assumes that
+    # the atoms are inside the cell: work on a wrapped copy.
+    system = system.copy()
+    system.wrap()
     system_1x = system
     pbc = system_1x.get_pbc()
     num_1x = system_1x.get_atomic_numbers()
